@@ -29,6 +29,7 @@ type Env struct {
 	pkg   *types.Package
 	where string
 	err   []string
+	pats  *[]Term // candidate E-matching patterns collected under a binder
 }
 
 func (e *Env) errorf(f string, a ...any) {
@@ -191,8 +192,30 @@ func (e *Env) eval(x *Expr) cval {
 			binders = append(binders, "("+sym+" "+ct.Sort+")")
 		}
 		vc.needElemAxioms()
+		var cands []Term
+		ne.pats = &cands
 		body := ne.boolTerm(x.X)
 		e.err = ne.err
+		if e.pats != nil {
+			*e.pats = append(*e.pats, cands...)
+		}
+		pat := ""
+		seen := map[Term]bool{}
+		for _, c := range cands {
+			ok := true
+			for _, v := range x.Vars {
+				if !strings.Contains(c, "?"+v.Name+")") && !strings.Contains(c, "?"+v.Name+" ") {
+					ok = false
+				}
+			}
+			if ok && !seen[c] {
+				seen[c] = true
+				pat += " :pattern (" + c + ")"
+			}
+		}
+		if pat != "" {
+			body = "(! " + body + pat + ")"
+		}
 		return cval{fmt.Sprintf("(%s (%s) %s)", x.Op, strings.Join(binders, " "), body), CT{Sort: "Bool"}}
 	case "field":
 		return e.evalField(x)
@@ -331,7 +354,7 @@ func (e *Env) evalBinary(x *Expr) cval {
 			if a.t == "nilslice" {
 				other = b
 			}
-			t := Eq(sx("s-base", other.t), "nilref")
+			t := Eq(e.vc.sptr(other.t), "nilref")
 			if x.Name == "!=" {
 				t = Not(t)
 			}
@@ -488,7 +511,7 @@ func (e *Env) addrOf(x *Expr) (Term, types.Type, bool) {
 		i := e.eval(x.Args[0])
 		if base.ct.T != nil {
 			if sl, ok := types.Unalias(base.ct.T).Underlying().(*types.Slice); ok {
-				return vc.elemAddr(sx("s-base", base.t), simplifyAdd(sx("s-off", base.t), i.t)), sl.Elem(), true
+				return vc.elemAddr(vc.sptr(base.t), i.t), sl.Elem(), true
 			}
 		}
 	}
@@ -519,7 +542,10 @@ func (e *Env) evalIndex(x *Expr) cval {
 	if base.ct.T != nil {
 		switch u := types.Unalias(base.ct.T).Underlying().(type) {
 		case *types.Slice:
-			addr := vc.elemAddr(sx("s-base", base.t), simplifyAdd(sx("s-off", base.t), i.t))
+			addr := vc.elemAddr(vc.sptr(base.t), i.t)
+			if e.pats != nil && strings.Contains(addr, "?") {
+				*e.pats = append(*e.pats, addr)
+			}
 			return cval{vc.loadT(e.st, addr, u.Elem()), vc.ctOf(u.Elem())}
 		case *types.Map:
 			ks, vs := vc.sortOf(u.Key()), vc.sortOf(u.Elem())
@@ -578,7 +604,7 @@ func (vc *VC) pureMethodTermsNamed(st *State, mkey string, sig *types.Signature,
 		sorts = append(sorts, vc.sortOf(sig.Params().At(i).Type()))
 	}
 	var res []Term
-	all := append([]Term{recv, vc.osOf(st, recv)}, args...)
+	all := append([]Term{recv, vc.osOfFacet(st, mkey, recv)}, args...)
 	for i := 0; i < sig.Results().Len(); i++ {
 		f := "m_" + sanitize(mkey)
 		if sig.Results().Len() > 1 {
@@ -592,6 +618,16 @@ func (vc *VC) pureMethodTermsNamed(st *State, mkey string, sig *types.Signature,
 
 func (e *Env) applySpec(sf *SpecFunc, args []cval) cval {
 	vc := e.vc
+	if sf.Pkg != "" {
+		if hp := vc.P.pkgByShort(sf.Pkg); hp != nil && hp != e.pkg {
+			// evaluate the spec function in its home package (type and constant names)
+			ne := *e
+			ne.pkg = hp
+			r := ne.applySpec(sf, args)
+			e.err = ne.err
+			return r
+		}
+	}
 	ret := e.resolveTypeName(sf.Ret)
 	if len(args) != len(sf.Params) {
 		e.errorf("spec func %s expects %d arguments", sf.Name, len(sf.Params))
@@ -781,7 +817,7 @@ func (e *Env) evalCall(x *Expr) cval {
 		}
 		r := a.t
 		if a.ct.Sort == "Slice" {
-			r = sx("s-base", a.t)
+			r = vc.sptr(a.t)
 		}
 		return cval{sx(">=", sx("birth", sx("root", r)), e.old.clk), B}
 	case "now":
@@ -805,6 +841,24 @@ func (e *Env) evalCall(x *Expr) cval {
 			e.errorf("callres: no call of %s recorded", x.Args[0].Str)
 			return cval{"nilval", CT{Sort: "Val"}}
 		}
+	case "tgtvalid":
+		return cval{vc.tgtValid(e.st, argv(0).t), B}
+	case "b64urlDecode":
+		vc.sc.DeclFun("b64urlDecode", []string{"String"}, "String")
+		return cval{sx("b64urlDecode", argv(0).t), S}
+	case "splitPart":
+		vc.sc.DeclFun("splitPart", []string{"String", "String", "Int"}, "String")
+		return cval{sx("splitPart", argv(0).t, argv(1).t, argv(2).t), S}
+	case "splitCount":
+		vc.sc.DeclFun("splitCount", []string{"String", "String"}, "Int")
+		return cval{sx("splitCount", argv(0).t, argv(1).t), I}
+	case "iszero":
+		a := argv(0)
+		if a.ct.T == nil {
+			e.errorf("iszero of untyped value")
+			return cval{"true", B}
+		}
+		return cval{Eq(a.t, vc.zeroOf(a.ct.T)), B}
 	case "tosec":
 		// tosec(t): whole seconds of a time value
 		return cval{sx("div", argv(0).t, "1000000000"), I}
@@ -819,9 +873,6 @@ func (e *Env) evalCall(x *Expr) cval {
 		// str(x): string view of a named string type value
 		a := argv(0)
 		return cval{a.t, S}
-	case "os":
-		a := argv(0)
-		return cval{vc.osOf(e.st, a.t), I}
 	}
 	if sf, ok := vc.C.Specs[x.Name]; ok {
 		var args []cval
@@ -844,9 +895,9 @@ func (vc *VC) callSymCT(key string, k int) CT {
 // containsTerm: exists i. 0 <= i < len(s) && s[i] == v
 func (vc *VC) containsTerm(st *State, s Term, et types.Type, v Term) Term {
 	vc.needElemAxioms()
-	addr := sx("elem", sx("s-base", s), sx("+", sx("s-off", s), "?ci"))
+	addr := sx("elem", vc.sptr(s), "?ci")
 	elemv := vc.loadT(st, addr, et)
-	return fmt.Sprintf("(exists ((?ci Int)) (and (<= 0 ?ci) (< ?ci (s-len %s)) (= %s %s)))", s, elemv, v)
+	return fmt.Sprintf("(exists ((?ci Int)) (! (and (<= 0 ?ci) (< ?ci (s-len %s)) (= %s %s)) :pattern (%s)))", s, elemv, v, addr)
 }
 
 func (vc *VC) isErrTerm(err, target Term) Term {
